@@ -18,7 +18,7 @@ CONSTANTS Templates, Export
 Space(t) == CASE t = "branch" -> Branch [] t = "loop" -> LoopP [] t = "nested" -> Nested
               [] t = "straight" -> Straight [] t = "call" -> CallP [] t = "rec" -> RecP
               [] t = "closure" -> Closure [] t = "loopbranch" -> LoopBranch [] t = "rangebranch" -> RangeBranch [] t = "strbranch" -> StrBranch
-              [] t = "sharedcmp" -> SharedCmp [] t = "fltbranch" -> FltBranch [] t = "extract" -> Extract
+              [] t = "sharedcmp" -> SharedCmp [] t = "fltbranch" -> FltBranch [] t = "extract" -> Extract [] t = "ubig" -> UBig [] t = "consttype" -> ConstType [] t = "sibloops" -> SibLoops [] t = "orand" -> OrAnd [] t = "switch2" -> Switch2
               [] OTHER -> BigConst
 Programs == UNION {Space(t) : t \in Templates}
 
@@ -46,7 +46,7 @@ BadSwap(p) == WithPres(p, [commute |-> FALSE, flip |-> FALSE, badswap |-> TRUE])
 BadFlip(p) == WithPres(p, [commute |-> FALSE, flip |-> TRUE, badswap |-> FALSE])
 HasBadFlip(p) == p.tpl \in {"sharedcmp", "fltbranch"}
 \* the bodies of the if and of the else exchanged, the test untouched (C04 names this edit)
-HasExchange(p) == p.tpl \in {"branch", "sharedcmp", "fltbranch"} /\ p.thenE # p.elseE
+HasExchange(p) == p.tpl \in {"branch", "sharedcmp", "fltbranch", "orand", "switch2"} /\ p.thenE # p.elseE
 Exchange(p) == [p EXCEPT !.thenE = p.elseE, !.elseE = p.thenE]
 
 Edge(p, q, kind) ==
